@@ -10,7 +10,8 @@
  * case:   <blk> <shutans> [<conn>] ; ops ; beh0 | beh1 | ... ; script ; -
  *         conn: "-" (default) stream opened connected; t<k>/u<k>: the script starts right after a real
  *         non-blocking uv_tcp_connect / uv_pipe_connect to a listener of the harness (the first k
- *         getsockopt(SO_ERROR) answers are forced to EINPROGRESS); T/U: nobody listens (ECONNREFUSED)
+ *         getsockopt(SO_ERROR) answers are forced to EINPROGRESS); T/U: nobody listens (ECONNREFUSED);
+ *         op Kl / Kd: connect again on the same handle to the live / the dead target
  * output: <trace> ; <oracle log> ; <pollw log> ; <shutdown(2) answer> ; <conn log: kind:connect(2) result:SO_ERROR answers>
  * trace tokens: see ocaml/drv_c05.ml. */
 #include <stdio.h>
@@ -57,6 +58,10 @@ static int tcp_mode;
  * forced to EINPROGRESS first */
 static int conn_mode, forced_inprog, in_connect_call, conn_res, g_ls = -1;
 static uv_connect_t creq;
+/* connect retries on the same handle (op K): a live and a dead target of the handle's kind */
+static uv_connect_t creqs[64]; static int ncreq, connected_h, connecting_h;
+static int g_dead = -1; static struct sockaddr_in addr_live, addr_dead; static char path_dead[108];
+static FILE* crlog; static char* crlog_buf; static size_t crlog_len;
 /* uv_write2: one handle to send (a bound uv_tcp_t); descriptors the peer received per request */
 static int ipc_mode, sendh_open, sendh_closing, cur_send_id = -1;
 static uv_tcp_t sendh;
@@ -263,7 +268,8 @@ int __wrap_shutdown(int fd, int how) {
 
 int __wrap_connect(int fd, const struct sockaddr* a, socklen_t l) {
   int r = __real_connect(fd, a, l), e = errno;
-  if (in_connect_call) { conn_res = r == 0 ? 0 : -e; g_fd = fd; }
+  if (in_connect_call == 1) { conn_res = r == 0 ? 0 : -e; g_fd = fd; }
+  if (in_connect_call == 2) fprintf(crlog, "%d,", r == 0 ? 0 : -e);
   errno = e;
   return r;
 }
@@ -304,6 +310,8 @@ static void shutdown_cb(uv_shutdown_t* req, int status) {
 }
 static void connect_cb(uv_connect_t* req, int status) {
   (void) req;
+  connecting_h = 0;
+  if (status == 0) connected_h = 1;
   if (g_quiet) return;
   printf("k:%d ", status);
   run_beh();
@@ -380,6 +388,24 @@ static void do_ops(char* ops, int in_cb) {
       printf("r%d:%d ", w->id, r);
       free(bufs);
       break;
+    case 'K': {                                /* uv_tcp_connect / uv_pipe_connect again on the same handle */
+      int tcp = conn_mode == 't' || conn_mode == 'T', live = tok[1] != 'd';
+      if (!conn_mode || g_closing || connected_h || ncreq >= 64) break;    /* not modelled: see Model/StreamWrite.v */
+      if (connecting_h && !tcp) break;
+      in_connect_call = 2;
+      if (tcp) {
+        r = uv_tcp_connect(&creqs[ncreq++], &h.tcp, (struct sockaddr*) (live ? &addr_live : &addr_dead), connect_cb);
+        printf("K:%d ", r);
+        if (r == 0) connecting_h = 1;
+      } else {
+        uv_pipe_connect(&creqs[ncreq++], &h.pipe, live ? sock_path : path_dead, connect_cb);
+        printf("K:0 ");
+        connecting_h = 1;
+      }
+      in_connect_call = 0;
+      if (g_fd >= 0) { struct pollfd pf; pf.fd = g_fd; pf.events = POLLOUT; pf.revents = 0; poll(&pf, 1, 5000); }
+      break;
+    }
     case 'X':
       if (sendh_open && !sendh_closing) { sendh_closing = 1; uv_close((uv_handle_t*) &sendh, NULL); }
       break;
@@ -464,7 +490,9 @@ static void run_case(char* line) {
   peer_bytes = 0; peer_eof = 0; peer_ok = 1; expect_len = 0; virt_bytes = 0;
 
   clog = open_memstream(&clog_buf, &clog_len);
-  g_fd = g_peer = g_ls = -1; sock_path[0] = 0; conn_res = 0;
+  crlog = open_memstream(&crlog_buf, &crlog_len);
+  g_fd = g_peer = g_ls = g_dead = -1; sock_path[0] = 0; path_dead[0] = 0; conn_res = 0;
+  ncreq = 0; connecting_h = 0; connected_h = !conn_mode;
   uv_loop_init(&loop);
   uv_prepare_init(&loop, &keepalive);
   uv_prepare_start(&keepalive, prep_cb);
@@ -476,29 +504,37 @@ static void run_case(char* line) {
     else { uv_pipe_init(&loop, &h.pipe, ipc_mode); uv_pipe_open(&h.pipe, g_fd); }
     g_active = 1;
   } else if (conn_mode == 't' || conn_mode == 'T') {
-    struct sockaddr_in a; socklen_t al = sizeof a; int r;
-    g_ls = socket(AF_INET, SOCK_STREAM, 0);
-    memset(&a, 0, sizeof a); a.sin_family = AF_INET; a.sin_addr.s_addr = htonl(INADDR_LOOPBACK);
-    if (bind(g_ls, (struct sockaddr*) &a, sizeof a) || (conn_mode == 't' && listen(g_ls, 4)) ||
-        getsockname(g_ls, (struct sockaddr*) &a, &al)) { printf("nosocket\n"); return; }
+    socklen_t al = sizeof addr_live; int r;
+    g_ls = socket(AF_INET, SOCK_STREAM, 0); g_dead = socket(AF_INET, SOCK_STREAM, 0);
+    memset(&addr_live, 0, sizeof addr_live); addr_live.sin_family = AF_INET; addr_live.sin_addr.s_addr = htonl(INADDR_LOOPBACK);
+    addr_dead = addr_live;
+    if (bind(g_ls, (struct sockaddr*) &addr_live, sizeof addr_live) || listen(g_ls, 8) ||
+        getsockname(g_ls, (struct sockaddr*) &addr_live, &al) ||
+        bind(g_dead, (struct sockaddr*) &addr_dead, sizeof addr_dead) ||          /* bound, nobody listens */
+        getsockname(g_dead, (struct sockaddr*) &addr_dead, &al)) { printf("nosocket\n"); return; }
     fcntl(g_ls, F_SETFL, fcntl(g_ls, F_GETFL) | O_NONBLOCK);
     uv_tcp_init(&loop, &h.tcp);
     g_active = 1; in_connect_call = 1;
-    r = uv_tcp_connect(&creq, &h.tcp, (struct sockaddr*) &a, connect_cb);
+    r = uv_tcp_connect(&creq, &h.tcp, (struct sockaddr*) (conn_mode == 't' ? &addr_live : &addr_dead), connect_cb);
     in_connect_call = 0;
     if (r != 0) { printf("connect-refused-synchronously %d\n", r); return; }
+    connecting_h = 1;
   } else {
     struct sockaddr_un a; static int seq; const char* dir = getenv("C05_SOCKDIR");
-    snprintf(sock_path, sizeof sock_path, "%s/c05.%d.%d.sock", dir ? dir : "/tmp", (int) getpid(), seq++);
-    g_ls = socket(AF_UNIX, SOCK_STREAM, 0);
+    snprintf(sock_path, sizeof sock_path, "%s/c05.%d.%d.sock", dir ? dir : "/tmp", (int) getpid(), seq);
+    snprintf(path_dead, sizeof path_dead, "%s/c05.%d.%d.dead", dir ? dir : "/tmp", (int) getpid(), seq++);
+    g_ls = socket(AF_UNIX, SOCK_STREAM, 0); g_dead = socket(AF_UNIX, SOCK_STREAM, 0);
+    unlink(sock_path); unlink(path_dead);
     memset(&a, 0, sizeof a); a.sun_family = AF_UNIX; strcpy(a.sun_path, sock_path);
-    unlink(sock_path);
-    if (bind(g_ls, (struct sockaddr*) &a, sizeof a) || (conn_mode == 'u' && listen(g_ls, 4))) { printf("nosocket\n"); return; }
+    if (bind(g_ls, (struct sockaddr*) &a, sizeof a) || listen(g_ls, 8)) { printf("nosocket\n"); return; }
+    strcpy(a.sun_path, path_dead);
+    if (bind(g_dead, (struct sockaddr*) &a, sizeof a)) { printf("nosocket\n"); return; }
     fcntl(g_ls, F_SETFL, fcntl(g_ls, F_GETFL) | O_NONBLOCK);
     uv_pipe_init(&loop, &h.pipe, 0);
     g_active = 1; in_connect_call = 1;
-    uv_pipe_connect(&creq, &h.pipe, sock_path, connect_cb);
+    uv_pipe_connect(&creq, &h.pipe, conn_mode == 'u' ? sock_path : path_dead, connect_cb);
     in_connect_call = 0;
+    connecting_h = 1;
   }
   if (conn_mode && g_fd >= 0) {          /* let the kernel finish the handshake (or the refusal) */
     struct pollfd pf; pf.fd = g_fd; pf.events = POLLOUT; pf.revents = 0;
@@ -527,13 +563,15 @@ static void run_case(char* line) {
   uv_loop_close(&loop);
   if (g_peer >= 0) close(g_peer);
   if (g_ls >= 0) close(g_ls);
+  if (g_dead >= 0) close(g_dead);
   if (sock_path[0]) unlink(sock_path);
-  g_fd = g_peer = g_ls = -1;
-  fclose(olog); fclose(plog); fclose(clog);
-  if (conn_mode) printf(" ; %s; %s; %d ; %c:%d:%s\n", olog_buf, plog_buf, shutans_seen,
-                        (conn_mode == 't' || conn_mode == 'T') ? 't' : 'u', conn_res, clog_buf);
+  if (path_dead[0]) unlink(path_dead);
+  g_fd = g_peer = g_ls = g_dead = -1;
+  fclose(olog); fclose(plog); fclose(clog); fclose(crlog);
+  if (conn_mode) printf(" ; %s; %s; %d ; %c:%d:%s:%s\n", olog_buf, plog_buf, shutans_seen,
+                        (conn_mode == 't' || conn_mode == 'T') ? 't' : 'u', conn_res, clog_buf, crlog_buf);
   else printf(" ; %s; %s; %d ; -\n", olog_buf, plog_buf, shutans_seen);
-  free(olog_buf); free(plog_buf); free(clog_buf); free(script);
+  free(olog_buf); free(plog_buf); free(clog_buf); free(crlog_buf); free(script);
   for (i = 0; i < nreq; i++) {
     if (reqs[i]->virt) munmap(reqs[i]->payload, reqs[i]->total + 1); else free(reqs[i]->payload);
     free(reqs[i]); reqs[i] = NULL;
